@@ -709,7 +709,7 @@ Theorem pem_block_eq_der : forall L k typ d, (k <= 6)%nat ->
   der_of_kind k d = true -> cert_oracle_ok L k d = true ->
   parse_pem_block L typ d = route_der L d.
 Proof.
-  intros L k typ d Hk Hu Hd Hc. unfold parse_pem_block. rewrite Hu, label_parser_of_kind by assumption.
+  intros L k typ d Hk Hu Hd Hc. unfold parse_pem_block, parse_pem_block_gen. rewrite Hu, label_parser_of_kind by assumption.
   rewrite (trial_order_thm L k d Hk Hd Hc).
   destruct (parse_kind_ok L k d Hk Hd Hc) as [i Hi]. now rewrite Hi.
 Qed.
